@@ -196,6 +196,12 @@ def run(ctx, model):
     ctx.parallel(cfgs, lambda c, cfg: e2e.compare(c, model, "R-E2E", *cfg), min_items=2)
     ctx.floor("R-E2E", ctx.rule_counts.get("R-E2E", 0), len(cfgs), "end-to-end comparisons")
 
+    # ---------------- R-PROCESS: the same configurations in one long-lived process, backwards and forwards
+    pcfgs = cfgs + [("Numeral", [b]) for b in (2, 3, 5, 8, 10, 12, 16)] + \
+        [("Numeral", [b]) for b in (10.0, True, 16.0, "10", 1, 17)] + [("Word", [2.0, 5]), ("WordContains", ["AB", True]), ("WordContains", ["ab ", True])]   # arguments that compare / hash equal to (or resemble) valid ones
+    e2e.process_order(ctx, model, "R-PROCESS", pcfgs)
+    ctx.floor("R-PROCESS", ctx.rule_counts.get("R-PROCESS", 0), len(pcfgs), "configurations replayed in one process")
+
 
 
 def _is_word_class(t):
